@@ -956,6 +956,9 @@ func (ex *Exec) applyContract(st *State, con *Contract, sfn *ssa.Function, c *ss
 				lvs = envPost.lvalues(m)
 			}()
 			for _, lv := range lvs {
+				if lv.base == "" {
+					continue // whole component: already havocked in the first pass
+				}
 				cur := g.get(st, lv.comp)
 				sortS := g.comps[lv.comp]
 				es := strings.TrimSuffix(strings.TrimPrefix(sortS, "(Array Int "), ")")
